@@ -38,6 +38,26 @@ func AllAtoms() []*regexref.Atom {
 		{`\xE9`, 0xE9}, {`\x00E9`, 0xE9}, {`\x0100`, 0x100}, {`\x4E00`, 0x4E00}, {`\x01F600`, 0x1F600}, {`\x0001F600`, 0x1F600}} {
 		out = append(out, &regexref.Atom{Text: t.text, Set: regexref.Runes(t.r)})
 	}
+	// every spelling of a hexadecimal escape: 2 digits, and 4 to 8 digits with leading zeros, for code points chosen so
+	// that every digit position holds letters as well as digits; alone and as the ends of a range
+	for _, r := range []rune{0x4A, 0xA0, 0xFF, 0x0A00, 0xABCD, 0xFEFF, 0x1F600, 0xABCDE, 0xFA0B1, 0xFFFFF, 0x10ABCD, 0x10FFFE} {
+		var spellings []string
+		if r <= 0xFF {
+			spellings = append(spellings, fmt.Sprintf(`\x%02X`, r))
+		}
+		for n := 4; n <= 8; n++ {
+			if int64(r) < int64(1)<<(4*uint(n)) {
+				spellings = append(spellings, fmt.Sprintf(`\x%0*X`, n, r))
+			}
+		}
+		for _, sp := range spellings {
+			out = append(out, &regexref.Atom{Text: sp, Set: regexref.Runes(r)})
+			if width := len(sp) - 2; int64(r)+1 >= int64(1)<<(4*uint(width)) {
+				continue // the upper end would need one more digit
+			}
+			out = append(out, regexref.GroupAtom(false, &regexref.Atom{Text: sp + "-" + fmt.Sprintf(`\x%0*X`, len(sp)-2, r+1), Set: regexref.NewSet(regexref.Range{Lo: r, Hi: r + 1})}))
+		}
+	}
 	out = append(out, regexref.Dot())
 	for _, c := range []string{`\d`, `\D`, `\w`, `\W`, `\s`, `\S`} {
 		out = append(out, regexref.ClassAtom(c))
